@@ -215,7 +215,7 @@ func rangeInv(cfg *Config) bool {
 // says what the file says; invalid values are rejected.
 func HarnessParse() {
 	dec := buildDecoded()
-	failKind := int(verifrt.U8("toml.fail") % 4)
+	failKind := int(verifrt.U8("toml.fail") % 5)
 	cfg, err := ParseData(verifrt.TOMLBytesFail(dec, failKind))
 	if failKind != 0 {
 		verifrt.Cover("C09/C12: a file the decoder rejects")
